@@ -12,6 +12,7 @@ def overrideOpdSize (k : Keywords) (rm : Nat) : Nat :=
   if k.isByte then rm &&& c_SET_BYTE
   else if k.isWord then rm &&& c_SET_WORD
   else if k.isDword then rm &&& c_SET_DWORD
+  else if k.isQword then rm ||| c_reg64
   else rm
 
 /-- `get_vector_rex_prefix`. -/
